@@ -5,18 +5,25 @@ use super::c02::ann_groups;
 use crate::ctx::{guard, Ctx};
 use crate::drive;
 use crate::model::{ic_value, Facts, Kind, Mode, RefOnt, KINDS};
-use crate::obs::{close32, kind_fn, Obs};
+use crate::obs::{close_ic, kind_fn, ulp32, Obs};
 use crate::space::all_dags;
 use hpo::term::InformationContent;
 use serde_json::json;
 
-/// Beyond the documented limit (N > 65 535) the comparison grants what any f32 evaluation of -ln(n/N) needs: ln N - ln n
-/// is quantised to one unit in the last place of ln N per operand (9.5e-7 up to N = 2^23, 1.9e-6 up to 2^46, 3.8e-6 above),
-/// so the band is max(2e-6, 2 ulp(ln N)) + 1e-5 of the value (for N <= 65 535 this is `close32`).
+/// Beyond the documented limit (N > 65 535) the comparison grants what any f32 evaluation of -ln(n/N) needs, and nothing
+/// else: ln N - ln n is quantised to one unit in the last place of ln N per operand, the quotient form to a few units in
+/// the last place of the value - the band is 2 ulp(ln N) + 4 ulp(value), the same as `close_ic` inside the limit. There is
+/// no constant floor (a floor of 2e-6 would let a small value - n close to N - be off by a visible fraction), and
+/// n = N is 0 in every evaluation (N/N = 1 and ln N - ln N = 0 exactly), so it is demanded exactly.
 fn close_beyond(v: f32, want: f64, total: usize) -> bool {
-    let ln_total = (total as f64).ln() as f32;
-    let ulp = f32::from_bits(ln_total.to_bits() + 1) - ln_total;
-    v.is_finite() && v >= 0.0 && ((v as f64) - want).abs() <= (2.0 * ulp as f64).max(2e-6) + 1e-5 * want
+    if !v.is_finite() || v < 0.0 {
+        return false;
+    }
+    if want == 0.0 {
+        return v == 0.0;
+    }
+    let ln_total = (total.max(2) as f64).ln() as f32;
+    ((v as f64) - want).abs() <= 2.0 * ulp32(ln_total) as f64 + 4.0 * ulp32(want as f32) as f64
 }
 
 /// Strict, tolerance-free part of the property on one observed ontology.
@@ -43,8 +50,15 @@ fn strict(ctx: &mut Ctx, obs: &Obs, r: &RefOnt, case: &dyn Fn() -> serde_json::V
                 continue;
             }
             for p in &t.ancestors {
-                let pic = obs.terms.iter().find(|x| x.id == *p).map(|x| x.ic[k.idx()]).unwrap_or(0.0);
-                if pic > t.ic[k.idx()] + 1e-6 {
+                let Some(pic) = obs.terms.iter().find(|x| x.id == *p).map(|x| x.ic[k.idx()]) else {
+                    // (an ancestor id that is no term of the ontology is C01's finding; here it only means that this
+                    // pair cannot be compared - counted, not silent)
+                    ctx.bump("skipped: monotonicity of the information content, reported ancestor is not a term of the ontology", 1);
+                    continue;
+                };
+                // (strict: the values of an ancestor and a descendant are -ln of n'/N and n/N with n' >= n, evaluated by
+                // the same monotone function)
+                if pic > t.ic[k.idx()] {
                     ctx.violation(&format!("InformationContent::{}", kind_fn(k)), "information content decreases from ancestor to descendant", json!({"case": case(), "difference": format!("ancestor {}: {} > descendant {}: {}", p, pic, t.id, t.ic[k.idx()])}));
                     return;
                 }
@@ -55,7 +69,9 @@ fn strict(ctx: &mut Ctx, obs: &Obs, r: &RefOnt, case: &dyn Fn() -> serde_json::V
 
 fn lattice(ctx: &mut Ctx, max_total: usize) {
     ctx.space("setters/all-(N,n)", &format!("InformationContent::set_gene/set_omim_disease/set_orpha_disease(N, n) for all 0 <= n <= N <= {max_total}; one case per N"));
-    for total in 0..=max_total {
+    // (a violation ends the case of this N only: every worker keeps numbering the cases of the space and goes on to the
+    // spaces below - leaving the function here would turn the finding into an enumeration mismatch between the workers)
+    'totals: for total in 0..=max_total {
         if !ctx.take() {
             continue;
         }
@@ -79,32 +95,32 @@ fn lattice(ctx: &mut Ctx, max_total: usize) {
             match got {
                 Err(p) => {
                     ctx.violation("InformationContent::set_*", "panics", json!({"N": total, "n": n, "observed": p}));
-                    return;
+                    continue 'totals;
                 }
                 Ok((a, b, c, vals)) => {
                     if a.is_err() || b.is_err() || c.is_err() {
                         ctx.violation("InformationContent::set_*", "returns an error for N <= 65535", json!({"N": total, "n": n, "observed": format!("{a:?} {b:?} {c:?}")}));
-                        return;
+                        continue 'totals;
                     }
                     for k in KINDS {
                         let v = vals[k.idx()];
                         if !v.is_finite() || v < 0.0 {
                             ctx.violation(&format!("InformationContent::set_{}", kind_fn(k)), "information content negative or not finite", json!({"N": total, "n": n, "observed": v}));
-                            return;
+                            continue 'totals;
                         }
-                        if !close32(v, want) {
+                        if !close_ic(v, want, total) {
                             ctx.violation(&format!("InformationContent::set_{}", kind_fn(k)), "information content is not -ln(n/N)", json!({"N": total, "n": n, "observed": v, "expected": want}));
-                            return;
+                            continue 'totals;
                         }
                         if (n == 0 || total == 0) && v != 0.0 {
                             ctx.violation(&format!("InformationContent::set_{}", kind_fn(k)), "information content not 0 although n or N is 0", json!({"N": total, "n": n, "observed": v}));
-                            return;
+                            continue 'totals;
                         }
                         // more annotations never raise the information content (n >= 1)
                         if n >= 1 {
                             if n >= 2 && v > prev[k.idx()] {
                                 ctx.violation(&format!("InformationContent::set_{}", kind_fn(k)), "information content increases with n", json!({"N": total, "n": n, "observed": v, "previous": prev[k.idx()]}));
-                                return;
+                                continue 'totals;
                             }
                             prev[k.idx()] = v;
                         }
@@ -134,7 +150,7 @@ fn lattice(ctx: &mut Ctx, max_total: usize) {
         });
         let want = ic_value(total, n);
         match got {
-            Ok((Ok(()), vals)) if vals.iter().all(|v| close32(*v, want) && *v >= 0.0) => {}
+            Ok((Ok(()), vals)) if vals.iter().all(|v| close_ic(*v, want, total) && *v >= 0.0) => {}
             other => ctx.violation("InformationContent::set_*", "wrong value at the u16 border", json!({"N": total, "n": n, "observed": format!("{other:?}"), "expected": want})),
         }
         ctx.sample(|| json!({"N": total, "n": n}));
@@ -162,11 +178,15 @@ fn lattice(ctx: &mut Ctx, max_total: usize) {
         match got {
             Ok(rs) => {
                 for r in rs {
-                    if let Ok(v) = r {
-                        if !close_beyond(v, want, total) {
-                            ctx.violation("InformationContent::set_*", "hands out a value that is not -ln(n/N) beyond the u16 border (refusing would be fine)", json!({"N": total, "n": n, "observed": v, "expected": want}));
-                            break;
+                    match r {
+                        Ok(v) => {
+                            ctx.bump("accepted: InformationContent::set_* with N > 65535 (documented limit), value checked", 1);
+                            if !close_beyond(v, want, total) {
+                                ctx.violation("InformationContent::set_*", "hands out a value that is not -ln(n/N) beyond the u16 border (refusing would be fine)", json!({"N": total, "n": n, "observed": v, "expected": want}));
+                                break;
+                            }
                         }
+                        Err(_) => ctx.bump("refused: InformationContent::set_* with N > 65535 (documented limit)", 1),
                     }
                 }
             }
@@ -217,7 +237,7 @@ fn lattice(ctx: &mut Ctx, max_total: usize) {
         });
         let want = [0.0f64, -(((total - 10) as f64) / total as f64).ln()];
         match res {
-            Ok(Ok(None)) => {}
+            Ok(Ok(None)) => ctx.bump("refused: Builder with more than 65535 genes (documented limit)", 1),
             Ok(Ok(Some(v))) => {
                 for k in 0..2 {
                     if !close_beyond(v[k], want[k], total as usize) {
@@ -236,7 +256,7 @@ fn lattice(ctx: &mut Ctx, max_total: usize) {
 pub fn run(ctx: &mut Ctx) {
     ctx.rule = "ontology part: case = (labelled DAG, annotated subset S[, emptied kind]) with totals 6 genes / 3 OMIM / 5 ORPHA (text path, which cannot carry bare records: 4 / 2 / 3); setter part: case = one N with every n <= N; distinct by construction; non-trivial = some annotated term has ancestors, resp. 0 < n < N".into();
     ctx.assumptions = vec![
-        "f32 values compared with atol 2e-6 + rtol 1e-5 against -ln(n/N) computed in f64 (beyond N = 65 535: atol max(2e-6, 2 ulp of ln N)); sign, finiteness and the rule 'exactly 0 when n or N is 0' strictly".into(),
+        "f32 values compared against -ln(n/N) computed in f64 within 2 ulp(ln N) + 4 ulp(value) (what any f32 evaluation of the formula needs; no constant absolute band, also beyond N = 65 535); an expected 0 (n = 0, N = 0 or n = N), sign, finiteness and monotonicity strictly".into(),
         "N <= 65535 (documented limit of the f32 conversion)".into(),
     ];
     // 1. the whole C02 exploration: every path's observation includes the three information contents
@@ -414,7 +434,7 @@ pub fn run(ctx: &mut Ctx) {
                                     Kind::Omim => t.information_content().omim_disease(),
                                     Kind::Orpha => t.information_content().orpha_disease(),
                                 };
-                                if !(got.is_finite() && got >= 0.0 && close32(got, want)) {
+                                if !(got.is_finite() && got >= 0.0 && close_ic(got, want, total as usize)) {
                                     return Some((format!("InformationContent::{}", kind_fn(kind)), format!("leaf {i}: n = {n}, N = {total}: observed {got} expected {want}")));
                                 }
                             }
@@ -425,8 +445,8 @@ pub fn run(ctx: &mut Ctx) {
                                     Kind::Omim => t.information_content().omim_disease(),
                                     Kind::Orpha => t.information_content().orpha_disease(),
                                 };
-                                // (n = N > 0: the statement demands -ln(1) up to rounding, exactly 0 only when n or N is 0)
-                                if !(got >= 0.0 && close32(got, 0.0)) {
+                                // (n = N > 0: N/N is 1 and ln N - ln N is 0 in every floating-point evaluation: exactly 0)
+                                if !(got >= 0.0 && got == 0.0) {
                                     return Some((format!("InformationContent::{}", kind_fn(kind)), format!("HP:{top} is linked to all {total} records: observed {got} expected 0")));
                                 }
                             }
@@ -500,7 +520,7 @@ pub fn run(ctx: &mut Ctx) {
                             let ic = t.information_content();
                             for (k, got) in [ic.gene(), ic.omim_disease(), ic.orpha_disease()].into_iter().enumerate() {
                                 let want = ic_value(totals[k], n[k]);
-                                if !(got.is_finite() && got >= 0.0 && close32(got, want) && (n[k] > 0 || got == 0.0)) {
+                                if !(got.is_finite() && got >= 0.0 && close_ic(got, want, totals[k]) && (n[k] > 0 || got == 0.0)) {
                                     return Some((format!("InformationContent::{}", kind_fn(KINDS[k])), format!("term {id} (position {} of {} in supply order): n = {}, N = {}: observed {got} expected {want}", if id < 10_000 { 0 } else { id - 10_000 + 2 }, t_count + 2, n[k], totals[k])));
                                 }
                             }
@@ -557,7 +577,7 @@ pub fn run(ctx: &mut Ctx) {
                 });
                 let want = ic_value(total, n);
                 match got {
-                    Ok((Ok(()), vals)) if vals.iter().all(|v| close32(*v, want) && *v >= 0.0) => {}
+                    Ok((Ok(()), vals)) if vals.iter().all(|v| close_ic(*v, want, total) && *v >= 0.0) => {}
                     other => ctx.violation("InformationContent::set_*", "value is not -ln(n/N)", json!({"N": total, "n": n, "observed": format!("{other:?}"), "expected": want})),
                 }
             }
